@@ -50,9 +50,23 @@ impl std::io::Write for Keep {
     }
 }
 
+#[derive(Clone, Debug, PartialEq, Eq)]
+pub enum BOp {
+    Read(usize),
+    Fill,
+    /// `consume(k)` as it is (k may exceed what is buffered: outside the `BufRead` contract)
+    Consume(usize),
+    /// `consume(min(k, n))`, n = the part of the slice `fill_buf` last showed that has not been taken yet:
+    /// a consumer that keeps the `BufRead` contract
+    ConsumeUpTo(usize),
+}
+
 #[derive(Clone, Debug)]
 pub enum Reads {
     Sizes(Vec<usize>),
+    /// the `BufRead` view of the body reader (what the content decoders drive), mixed with `read`:
+    /// hook `Response::verif_fill_buf` / `verif_consume`
+    BufOps(Vec<BOp>),
     Drain(usize), // bytes() & co. (see DRAIN_*): io::copy; the size is only the model's schedule
     Text(usize),  // text_utf8(): read_to_end + lossy UTF-8
 }
@@ -70,6 +84,18 @@ impl RespCase {
         let reads = match &self.reads {
             Reads::Sizes(ns) if ns.is_empty() => "-".to_string(),
             Reads::Sizes(ns) => ns.iter().map(|n| n.to_string()).collect::<Vec<_>>().join(","),
+            Reads::BufOps(ops) => format!(
+                "V{}",
+                ops.iter()
+                    .map(|o| match o {
+                        BOp::Read(n) => format!("r{}", n),
+                        BOp::Fill => "f".to_string(),
+                        BOp::Consume(k) => format!("c{}", k),
+                        BOp::ConsumeUpTo(k) => format!("m{}", k),
+                    })
+                    .collect::<Vec<_>>()
+                    .join(",")
+            ),
             Reads::Drain(sz) => format!("{}{}", drain_letter(*sz), DRAIN_BYTES),
             Reads::Text(sz) => format!("T{}", sz),
         };
@@ -88,6 +114,10 @@ impl RespCase {
 #[derive(Clone, Debug, PartialEq, Eq)]
 pub enum Ev {
     Ok(Vec<u8>),
+    /// `fill_buf` returned this slice (nothing consumed)
+    Peek(Vec<u8>),
+    /// `consume` was called (it returns nothing)
+    Consumed,
     Err(String),
     Blocked,
     Panic,
@@ -97,6 +127,8 @@ impl Ev {
     pub fn to_string(&self) -> String {
         match self {
             Ev::Ok(bs) => format!("o{}", hex(bs)),
+            Ev::Peek(bs) => format!("p{}", hex(bs)),
+            Ev::Consumed => "k".into(),
             Ev::Err(k) => format!("e:{}", k),
             Ev::Blocked => "b".into(),
             Ev::Panic => "P".into(),
@@ -239,6 +271,7 @@ pub fn run_resp(case: &RespCase) -> RespOut {
     let log = install_script(case.segs.clone());
     let max_read = match &case.reads {
         Reads::Sizes(ns) => ns.iter().copied().max().unwrap_or(0),
+        Reads::BufOps(ops) => ops.iter().map(|o| if let BOp::Read(n) = o { *n } else { 0 }).max().unwrap_or(0),
         Reads::Drain(_) | Reads::Text(_) => 0,
     };
     let mut buf = vec![0u8; max_read];
@@ -300,6 +333,60 @@ pub fn run_resp(case: &RespCase) -> RespOut {
                             },
                         });
                         if matches!(out.events.last(), Some(Ev::Panic)) {
+                            break;
+                        }
+                    }
+                }
+                Reads::BufOps(ops) => {
+                    // the part of the last shown slice that has not been taken yet
+                    let mut outstanding = 0usize;
+                    for (ri, op) in ops.iter().enumerate() {
+                        let before = pauses(&log);
+                        let resolved;
+                        let op = match op {
+                            BOp::ConsumeUpTo(k) => {
+                                resolved = BOp::Consume((*k).min(outstanding));
+                                &resolved
+                            }
+                            o => o,
+                        };
+                        let ev = match op {
+                            BOp::Read(n) => match catch_unwind(AssertUnwindSafe(|| resp.read(&mut buf[..*n]))) {
+                                Err(_) => Ev::Panic,
+                                Ok(Ok(k)) => Ev::Ok(buf[..k].to_vec()),
+                                Ok(Err(e)) => match classify_io(&e) {
+                                    Classified::Blocked => Ev::Blocked,
+                                    Classified::Err(k) => Ev::Err(k),
+                                },
+                            },
+                            BOp::Fill => match catch_unwind(AssertUnwindSafe(|| resp.verif_fill_buf())) {
+                                Err(_) => Ev::Panic,
+                                Ok(None) => Ev::Err("not-plain".into()),
+                                Ok(Some(Ok(bs))) => Ev::Peek(bs),
+                                Ok(Some(Err(e))) => match classify_io(&e) {
+                                    Classified::Blocked => Ev::Blocked,
+                                    Classified::Err(k) => Ev::Err(k),
+                                },
+                            },
+                            BOp::Consume(k) => match catch_unwind(AssertUnwindSafe(|| resp.verif_consume(*k))) {
+                                Err(_) => Ev::Panic,
+                                Ok(()) => Ev::Consumed,
+                            },
+                            BOp::ConsumeUpTo(_) => unreachable!(),
+                        };
+                        match (op, &ev) {
+                            (BOp::Fill, Ev::Peek(bs)) => outstanding = bs.len(),
+                            (BOp::Fill, _) => outstanding = 0,
+                            (BOp::Read(_), Ev::Ok(bs)) => outstanding = outstanding.saturating_sub(bs.len()),
+                            (BOp::Consume(k), _) => outstanding = outstanding.saturating_sub(*k),
+                            _ => {}
+                        }
+                        if matches!(ev, Ev::Ok(_) | Ev::Peek(_)) && out.ok_read_waited.is_none() && pauses(&log) > before {
+                            out.ok_read_waited = Some(ri);
+                        }
+                        let stop = ev == Ev::Panic;
+                        out.events.push(ev);
+                        if stop {
                             break;
                         }
                     }
